@@ -153,3 +153,28 @@ func init() {
 		},
 		Monitors: func(st *Stats) []Monitor { return []Monitor{NewC09ChainMonitor(st)} }, Cases: tierMap(12, 64), Blocks: tierMap(250, 600)})
 }
+
+func init() {
+	Register(&PropDef{ID: "C01",
+		Profile: func(tier string, r *Rng) Profile {
+			return Profile{Name: "c01-ties", MinTx: 4, MaxTx: 10, Hostile: 0.1, VoteFault: 0.04, GapBig: 0.05, Gov: true, Fragments: []string{"modeSpec", "mintInit"},
+				W: map[string]float64{"tipCustom": 10, "submitCustom": 40, "submit": 14, "tip": 6, "proposeDispute": 4, "vote": 8, "addFee": 2, "delegate": 5, "undelegate": 3, "createReporter": 4,
+					"selectReporter": 5, "withdrawTip": 3, "unjailReporter": 4, "govVote": 4, "createValidator": 1}}
+		},
+		World: func(cfg *WorldCfg, r *Rng) {
+			cfg.ValStake = []int64{1000, 1000, 1000, 1000, 1000, 1000} // equal powers: ties
+			cfg.NumVals = 4 + r.Pick(2)
+			cfg.MaxValidators = 6
+		},
+		Cases: tierMap(8, 48), Blocks: tierMap(150, 400)})
+}
+
+func init() {
+	Register(&PropDef{ID: "C19",
+		Profile: func(tier string, r *Rng) Profile {
+			return Profile{Name: "c19-authority", MinTx: 3, MaxTx: 9, Hostile: 0.2, VoteFault: 0.02, GapBig: 0.06, Gov: true, Fragments: []string{"mintInit"},
+				W: map[string]float64{"privileged": 8, "updateTeam": 3, "registerSpec": 4, "removeSelector": 5, "withdrawFeeRefund": 5, "claimReward": 4, "withdrawTip": 5, "unjailReporter": 4,
+					"selectReporter": 5, "switchReporter": 4, "proposeDispute": 5, "addFee": 4, "vote": 6, "govProposal": 1.5, "govVote": 5, "send": 3, "delegate": 5, "undelegate": 3, "redelegate": 2}}
+		},
+		Monitors: func(st *Stats) []Monitor { return []Monitor{NewC19Monitor(st)} }, Cases: tierMap(24, 128), Blocks: tierMap(250, 600)})
+}
